@@ -132,6 +132,7 @@ class Summary:
         self.entry_syms = set()
         self.entry_cons = []
         self.pre = []         # lifted preconditions: (cons, site, kind, detail)
+        self.inv_done = set()
         self.cases = []       # (CSet, retAV, heap)
 
 UNMODELLED = collections.Counter()
@@ -149,6 +150,7 @@ class Analyzer:
         self.thresholds = ()
         self.entry_atoms = set()
         self._changed = None
+        self._joined = None
         self.soft_widen = False
         self.summaries = {}
         self.fn_stack = []
@@ -161,6 +163,7 @@ class Analyzer:
         self.record = False
         self.trace = False
         self.probe_spec = []
+        self.assume_offsets_in_packet = False
         self.wrap_obligations = False
         self.opaque = []
         self.force_ret = {}
@@ -230,6 +233,19 @@ class Analyzer:
             for k, x in tmp.mem.items():
                 if isinstance(x, Int): S.entry_syms |= x.e.atoms()
         v, cons, extra, _ = S.init[loc]
+        if self.assume_offsets_in_packet and isinstance(v, Enum) and isinstance(v.fields.get((1, 0)), Int) and loc.rsplit(".", 1)[-1].startswith("offset_") \
+                and loc not in S.inv_done:
+            # stated object invariant of ParsedPacket: every recorded section offset lies inside the packet
+            lenloc = loc.rsplit(".", 1)[0] + ".packet.0#len"
+            if lenloc not in st.mem:
+                st.mem[lenloc] = self.init_value(st, {"k": "lenof"}, lenloc)
+            lv = st.mem[lenloc]
+            if isinstance(lv, Int):
+                c = le(v.fields[(1, 0)].e, lv.e)
+                S.inv_done.add(loc)
+                cons = list(cons) + [c]
+                S.init[loc] = (v, cons, extra, S.init[loc][3])
+                S.entry_syms |= lv.e.atoms()
         for c in cons: st.C.add(c)
         for k, x in extra.items(): st.mem.setdefault(k, x)
         return v
@@ -1009,6 +1025,7 @@ class Analyzer:
         if isinstance(a, Int):
             s = fresh(hint)
             A.C.add(eq(s, a.e)); B.C.add(eq(s, b.e))
+            if self._joined is not None and len(self._joined) < 24: self._joined.append(s)
             if self._changed is not None: self._changed.append((hint + "#" + str(len(self._changed)), a.e, b.e, lin(s)))
             return Int(s)
         if isinstance(a, Bool): return Bool("unk")
@@ -1043,6 +1060,7 @@ class Analyzer:
         A = A.copy(); B = B.copy()
         R = State()
         self._changed = [] if head_first else None
+        self._joined = []
         changed = []   # (key, eA, eB, sym) for Int cells that differ
         for k in sorted(set(A.mem) | set(B.mem)):
             if k.endswith("#ty"):
@@ -1101,6 +1119,16 @@ class Analyzer:
             R.C = widen(PA, PB, self.thresholds)
         else:
             R.C = weak_join(PA, PB)
+        # relational candidates for freshly joined integers: stay below a buffer length both sides keep them below
+        joined, self._joined = self._joined or [], None
+        if joined and not widen_ and self.assume_offsets_in_packet:
+            lens = sorted(a_ for a_ in (PA.atoms() & PB.atoms()) if a_.startswith("len"))[:6]
+            live = self.live_atoms(R)
+            for s_ in joined:
+                if s_ not in live: continue
+                cands.append(ge(lin(s_), 0))
+                for L in lens:
+                    cands.append(le(lin(s_), lin(L)))
         for c in cands:
             if PA.entails(c) and PB.entails(c):
                 R.C.add(c)
@@ -1471,6 +1499,9 @@ def ret1(st, v): return [(st, v)]
 def m_len(an, st, args, dty, site, callee, t):
     return ret1(st, Int(an.seq_len(st, args[0])))
 
+def m_is_empty(an, st, args, dty, site, callee, t):
+    return ret1(st, Bool("cmp", op="Eq", l=an.seq_len(st, args[0]), r=lin(0)))
+
 def m_deref_vec(an, st, args, dty, site, callee, t):
     return ret1(st, an.as_slice(st, args[0]))
 
@@ -1578,6 +1609,29 @@ def m_unwrap_or(an, st, args, dty, site, callee, t):
     s0 = st.copy(); s0.C.add(eq(a.discr, 1 - some_d))
     if not s0.C.infeasible(): out.append((s0, b))
     return out
+
+def m_unwrap_or_else(an, st, args, dty, site, callee, t):
+    a, clo = args
+    if not isinstance(a, Enum): return m_opaque(an, st, args, dty, site, callee, t)
+    some_d = 1 if a.adt.startswith("std::option::Option") else 0
+    out = []
+    s1 = st.copy(); s1.C.add(eq(a.discr, some_d))
+    if not s1.C.infeasible(): out.append((s1, a.fields.get((some_d, 0), an.default_value(s1, dty, fresh("tmp")))))
+    s0 = st.copy(); s0.C.add(eq(a.discr, 1 - some_d))
+    if not s0.C.infeasible():
+        done = False
+        if isinstance(clo, Enum) and clo.adt.startswith("(closure)"):
+            key = clo.adt[len("(closure)"):]
+            if key in an.fns:
+                cargs = [clo] if some_d == 1 else [clo, a.fields.get((1, 0), Unk())]
+                for s2, rv in an.analyze(key, cargs, s0):
+                    out.append((s2, rv))
+                done = True
+        if not done: out.append((s0, an.default_value(s0, dty, fresh("tmp"))))
+    return out
+
+def m_noop(an, st, args, dty, site, callee, t):
+    return ret1(st, Enum("(tuple)", 0, {}))
 
 def m_unwrap(an, st, args, dty, site, callee, t):
     a = args[0]
@@ -1887,6 +1941,8 @@ def m_any(an, st, args, dty, site, callee, t):
 
 MODELS = {
     "std::vec::Vec::<T, A>::len": m_len,
+    "std::vec::Vec::<T, A>::is_empty": m_is_empty,
+    "core::slice::<impl [T]>::is_empty": m_is_empty,
     "core::slice::<impl [T]>::len": m_len,
     "<std::vec::Vec<T, A> as std::ops::Deref>::deref": m_deref_vec,
     "<std::vec::Vec<T, A> as std::ops::Index<I>>::index": m_index,
@@ -1903,11 +1959,16 @@ MODELS = {
     "std::option::Option::<T>::unwrap_or": m_unwrap_or,
     "std::result::Result::<T, E>::unwrap_or": m_unwrap_or,
     "std::option::Option::<T>::unwrap": m_unwrap,
+    "std::option::Option::<T>::unwrap_or_else": m_unwrap_or_else,
+    "std::vec::Vec::<T, A>::reserve": m_noop,
+    "std::vec::Vec::<T, A>::shrink_to_fit": m_noop,
     "std::result::Result::<T, E>::map": m_result_map,
     "std::option::Option::<T>::map": m_result_map,
     "<I as std::iter::IntoIterator>::into_iter": m_range_into_iter,
     "std::iter::range::<impl std::iter::Iterator for std::ops::Range<A>>::next": m_range_next,
     "core::slice::<impl [T]>::iter": m_slice_iter,
+    "core::slice::iter::<impl std::iter::IntoIterator for &'a [T]>::into_iter": m_slice_iter,
+    "std::slice::iter::<impl std::iter::IntoIterator for &'a [T]>::into_iter": m_slice_iter,
     "std::iter::Iterator::enumerate": m_enumerate,
     "<std::iter::Enumerate<I> as std::iter::Iterator>::next": m_iter_next,
     "<std::slice::Iter<'a, T> as std::iter::Iterator>::next": m_iter_next,
